@@ -77,9 +77,7 @@ def coupled_updates(ctx, rid, adt, pairs, floor, exempt=None, only_pairs=None):
     adtn = adt.split("::")[-1]
     o = ctx.ob("%s.producers-%s" % (rid, adtn), "T8", adt,
                "at least %d construction sites of %s are found and classified" % (floor, adtn))
-    ctx.decide(o, len(sites) >= floor, "%d sites" % len(sites),
-               "only %d construction sites found (floor %d): the producer set moved out of the analysis' sight"
-               % (len(sites), floor), sample={"sites": [s.fn for s in sites]})
+    ctx.floor(o, len(sites), floor, "construction sites of %s" % adtn, sample={"sites": [s.fn for s in sites]})
     for s in sites:
         ctx.functions.add(s.fn)
         row = s.row()
@@ -160,7 +158,7 @@ def who_may_call(ctx, oid, callee, allowed_prefixes, text, floor=1):
     ctx.call_sites += len(cs)
     bad = [(k, i) for k, i in cs if not any(fn_of_closure(k).startswith(p) for p in allowed_prefixes)]
     if len(cs) < floor:
-        ctx.bad(o, "only %d call sites of %s found (floor %d)" % (len(cs), short(callee), floor))
+        ctx.floor(o, len(cs), floor, "call sites of %s" % short(callee))
     elif bad:
         ctx.bad(o, "called from outside its owner: %s" % ", ".join("%s at %s" % (k, i.line()) for k, i in bad),
                 loc=bad[0][1].line())
